@@ -167,7 +167,20 @@ func Run(dir string, timeout time.Duration, env []string, name string, args ...s
 	cmd.Stdout = &buf
 	cmd.Stderr = &buf
 	if err := cmd.Start(); err != nil {
-		return CmdResult{Err: err, Code: -1}
+		// transient under heavy load (EAGAIN on fork, ETXTBSY): retry a few times before giving up
+		var serr error = err
+		for i := 0; i < 5 && serr != nil; i++ {
+			time.Sleep(time.Duration(200*(i+1)) * time.Millisecond)
+			cmd = exec.Command(name, args...)
+			cmd.Dir = dir
+			cmd.Env = append(os.Environ(), env...)
+			cmd.Stdout = &buf
+			cmd.Stderr = &buf
+			serr = cmd.Start()
+		}
+		if serr != nil {
+			return CmdResult{Err: serr, Code: -1}
+		}
 	}
 	done := make(chan error, 1)
 	go func() { done <- cmd.Wait() }()
